@@ -39,7 +39,7 @@ SHARD_TIMEOUT = {"quick": 900, "thorough": 7200}
 
 
 def shards(tier, seed):
-    n = 80 if tier == "quick" else 1500
+    n = 80 if tier == "quick" else 9000
     return [{"kind": "closest", "seed": seed, "shard": i, "n": n} for i in range(16)]
 
 
